@@ -64,7 +64,8 @@ std::vector<int> heldBy[MaxT];        // pages held, in acquisition order
 struct Op { int proc; char type; int page; bool ok; uint64_t call, ret; };
 std::vector<Op> history;
 
-uint64_t nPopOk = 0, nPopEmpty = 0, nPush = 0, nSkippedPush = 0, nOverlapOps = 0, nLinChecks = 0, nLinNodes = 0, nConcurrentEmptyPop = 0, nCasRetry = 0;
+uint64_t nPopOk = 0, nPopEmpty = 0, nPush = 0, nSkippedPush = 0, nOverlapOps = 0, nLinChecks = 0, nLinNodes = 0, nConcurrentEmptyPop = 0, nCasRetry = 0, nNotStrict = 0;
+std::string strictSample;
 
 std::string opText(const Op &o)
 {
@@ -150,7 +151,10 @@ bool precedes(const Op &a, const Op &b)
     return a.ret < b.call;
 }
 
-bool linearize(std::vector<char> &done, size_t ndone, std::vector<char> &bag, int bagCount)
+// strict = bag of page identities (a successful pop must take a page that is in the bag at its
+// linearisation point); !strict = counting abstraction (a successful pop takes one unit, whichever page it
+// ends up with; identities are covered by the ownership table and the final drain instead)
+bool linearize(const bool strict, std::vector<char> &done, size_t ndone, std::vector<char> &bag, int bagCount)
 {
     ++nLinNodes;
     const size_t n = history.size();
@@ -164,19 +168,21 @@ bool linearize(std::vector<char> &done, size_t ndone, std::vector<char> &bag, in
         if (!ready) continue;
         const Op &o = history[i];
         if (o.type == 'u') {
-            if (bag[o.page]) continue;          // cannot add a page that is already in the bag
+            if (strict && bag[o.page]) continue;          // cannot add a page that is already in the bag
+            const char was = bag[o.page];
             bag[o.page] = 1; done[i] = 1;
-            if (linearize(done, ndone + 1, bag, bagCount + 1)) return true;
-            bag[o.page] = 0; done[i] = 0;
+            if (linearize(strict, done, ndone + 1, bag, bagCount + 1)) return true;
+            bag[o.page] = was; done[i] = 0;
         } else if (o.ok) {
-            if (!bag[o.page]) continue;
+            if (strict ? !bag[o.page] : bagCount <= 0) continue;
+            const char was = bag[o.page];
             bag[o.page] = 0; done[i] = 1;
-            if (linearize(done, ndone + 1, bag, bagCount - 1)) return true;
-            bag[o.page] = 1; done[i] = 0;
+            if (linearize(strict, done, ndone + 1, bag, bagCount - 1)) return true;
+            bag[o.page] = was; done[i] = 0;
         } else {
             if (bagCount != 0) continue;        // a failing pop needs an empty bag
             done[i] = 1;
-            if (linearize(done, ndone + 1, bag, bagCount)) return true;
+            if (linearize(strict, done, ndone + 1, bag, bagCount)) return true;
             done[i] = 0;
         }
     }
@@ -190,6 +196,8 @@ std::vector<int> initialFree()
     else f = P->free;
     return f;
 }
+
+struct AssertionFailed { std::string what; };
 
 void finalCheck()
 {
@@ -207,14 +215,27 @@ void finalCheck()
     std::vector<char> done(history.size(), 0), bag(MaxPages + 2, 0);
     int count = 0;
     for (int n : initialFree()) { bag[n] = 1; ++count; }
-    if (!linearize(done, 0, bag, count)) {
+    if (!linearize(false, done, 0, bag, count)) {
         std::ostringstream os;
-        os << "history is not linearizable w.r.t. a bag of free pages (initially";
+        os << "history is not linearizable: an allocation failed although at every point during it some page was neither held "
+              "nor claimed by a concurrent allocation, or more pages were allocated than existed (free initially:";
         for (int n : initialFree()) os << ' ' << n;
         os << "):";
         for (auto &o : history) os << ' ' << opText(o);
         VS::violation(os.str());
         return;
+    }
+    // observation only: the same history against a bag with page identities
+    std::fill(done.begin(), done.end(), 0);
+    std::fill(bag.begin(), bag.end(), 0);
+    for (int n : initialFree()) bag[n] = 1;
+    if (!linearize(true, done, 0, bag, count)) {
+        ++nNotStrict;
+        if (strictSample.empty()) {
+            std::ostringstream os;
+            for (auto &o : history) os << ' ' << opText(o);
+            strictSample = os.str();
+        }
     }
     // (2) once activity has stopped every page nobody holds can be allocated again, and nothing else
     std::vector<int> expect;
@@ -228,10 +249,15 @@ void finalCheck()
         if (!heldNow) expect.push_back(n);
     }
     std::vector<int> got;
-    for (unsigned i = 0; i <= P->capacity + 1; ++i) {
-        PageId page;
-        if (!S->pop(page)) break;
-        got.push_back(page.number);
+    try {
+        for (unsigned i = 0; i <= P->capacity + 1; ++i) {
+            PageId page;
+            if (!S->pop(page)) break;
+            got.push_back(page.number);
+        }
+    } catch (const AssertionFailed &f) {
+        VS::violation("while draining the stack after all scripts finished: " + f.what);
+        return;
     }
     std::sort(got.begin(), got.end());
     if (got != expect) {
@@ -351,6 +377,9 @@ void body(V::Ctx &ctx)
                 V::count("histories_with_empty_pop_overlapping_push", nConcurrentEmptyPop); nConcurrentEmptyPop = 0;
                 V::count("linearization_search_nodes", nLinNodes); nLinNodes = 0;
                 V::count("pops_with_cas_retry", nCasRetry); nCasRetry = 0;
+                V::count("histories_not_identity_bag_linearizable", nNotStrict);
+                if (nNotStrict) V::sample("OBS reservation effect in " + name + ":" + strictSample);
+                nNotStrict = 0; strictSample.clear();
                 if (st.capHit) V::count("cap_hit");
                 if (st.boundCompleted >= plan.bound) V::count("scenarios_completed_at_bound");
                 V::outcome(st.violated ? "violated" : (st.contextSwitches ? "explored-with-conflicts" : "explored"));
@@ -372,8 +401,9 @@ void xassert(const char *msg, const char *file, int line)
     const std::string m = std::string("assertion failed: ") + file + ":" + std::to_string(line) + ": \"" + msg + "\"";
     if (VS::self() >= 0)
         VS::violation(m);       // does not return
-    fprintf(stderr, "%s\n", m.c_str());
-    abort();
+    throw AssertionFailed{m};   // main context: caught by finalCheck() (anywhere else it terminates the case)
 }
+
+extern "C" const char *__asan_default_options() { return "detect_stack_use_after_return=0"; }
 
 VHARNESS_MAIN(body)
